@@ -164,7 +164,12 @@ func (st *State) callFunction(fn *ssa.Function, args []Value, site ssa.Value) Va
 var opaque = map[string]bool{"fmt": true, "reflect": true, "os": true, "time": true, "runtime": true,
 	"internal/reflectlite": true, "log": true, "syscall": true, "internal/poll": true}
 
+var allowOpaque = map[string]bool{"(reflect.StructTag).Get": true, "(reflect.StructTag).Lookup": true}
+
 func opaquePkg(fn *ssa.Function) bool {
+	if allowOpaque[fn.String()] {
+		return false
+	}
 	p := fn.Pkg
 	if p == nil {
 		if fn.Synthetic != "" {
@@ -1017,7 +1022,13 @@ func (st *State) next(in *ssa.Next) Value {
 	tt := in.Type().(*types.Tuple)
 	if it.isMap {
 		if it.pos >= len(it.keys) {
-			return Agg{st.c.False, st.zeroValue(tt.At(1).Type()), st.zeroValue(tt.At(2).Type())}
+			zv := func(t types.Type) Value {
+				if b, ok := t.(*types.Basic); ok && b.Kind() == types.Invalid {
+					return st.zero64
+				}
+				return st.zeroValue(t)
+			}
+			return Agg{st.c.False, zv(tt.At(1).Type()), zv(tt.At(2).Type())}
 		}
 		k, v := it.keys[it.pos], it.vals[it.pos]
 		it.pos++
